@@ -307,6 +307,33 @@ Definition spec_align (evs : list nat) (values : list V) (segs : list nat) : lis
 Definition spec_partition (X : list V) (segs : list nat) : list (list V) :=
   map (fun se => firstn (snd se - fst se) (skipn (fst se) X)) (combine (removelast segs) (tl segs)).
 
+(* ---------- histories: sequences of mutating operations ---------- *)
+Inductive mop :=
+| OAdd (e : nat) (v : option V) | ORemove (v : V) | OAddUnmatched (segs : list nat) (d : nat)
+| OAlign (segs : list nat) | ORemoveRepeats | OPartConcat (segs : list nat) (allow_repeats : bool).
+Definition apply_op (c : cd) (o : mop) : option cd :=
+  match o with
+  | OAdd e v => add c e v
+  | ORemove v => Some (remove c v)
+  | OAddUnmatched segs d => Some (add_unmatched c segs d)
+  | OAlign segs => align c segs
+  | ORemoveRepeats => remove_repeats c
+  | OPartConcat segs ar => concatenate (partition c segs) ar
+  end.
+Fixpoint run_ops (c : cd) (ops : list mop) : option cd :=
+  match ops with
+  | [] => Some c
+  | o :: t => match apply_op c o with Some c' => run_ops c' t | None => None end
+  end.
+(* documented argument domain of an operation on a series of N dumps *)
+Definition op_ok (N : nat) (o : mop) : Prop :=
+  match o with
+  | OAdd e (Some _) => e < N
+  | OAlign segs => incr segs /\ In N segs
+  | OPartConcat segs _ => False      (* needs a series starting at dump 0: see partition_concat_id *)
+  | _ => True
+  end.
+
 End Cat.
 
 Arguments mk {V}.
@@ -316,6 +343,12 @@ Arguments ev {V}.
 Arguments GVal {V}.
 Arguments GList {V}.
 Arguments GErr {V}.
+Arguments OAdd {V}.
+Arguments ORemove {V}.
+Arguments OAddUnmatched {V}.
+Arguments OAlign {V}.
+Arguments ORemoveRepeats {V}.
+Arguments OPartConcat {V}.
 
 (* ---------- wire (V = Z value ids) ---------- *)
 Definition zd : Z := (-1)%Z.
